@@ -149,6 +149,18 @@ def bash_for_quirk(toks):
     return False
 
 
+def dash_case_quirk(toks):
+    """KF-C12-8 (dash takes any token as a case pattern): operator at a pattern start followed by `)` or `|` after a `case`."""
+    seen = False
+    for i in range(1, len(toks) - 1):
+        if toks[i - 1] == "Case" or toks[i] == "Case":
+            seen = True
+        if (seen and toks[i] in ("Semi", "Amp", "AndAnd", "OrOr", "DSemi")
+                and toks[i - 1] in ("In", "DSemi", "Newl", "Lparen", "Pipe") and toks[i + 1] in ("Rparen", "Pipe")):
+            return True
+    return False
+
+
 def oracle_leg(ctx, rows, limit=None):
     """Coq accepts (POSIX grammar + shell switches) vs bash -n / dash -n verdicts on the search's token lists."""
     rows = [r for r in rows if r.get("toks")]
@@ -163,7 +175,7 @@ def oracle_leg(ctx, rows, limit=None):
         if r["bash"] in (0, 1, 2) and not bash_for_quirk(r["toks"]):
             items.append("(false,%s,%s)" % (coq_toks(r["toks"]), "true" if r["bash"] == 0 else "false"))
             meta.append((r, "bash"))
-        if r["dash"] in (0, 1, 2):
+        if r["dash"] in (0, 1, 2) and not dash_case_quirk(r["toks"]):
             items.append("(true,%s,%s)" % (coq_toks(r["toks"]), "true" if r["dash"] == 0 else "false"))
             meta.append((r, "dash"))
     mism = []
@@ -180,4 +192,4 @@ def oracle_leg(ctx, rows, limit=None):
             r, shn = meta[sh + i]
             mism.append({"src": r["src"], "toks": r["toks"], "shell": shn, "exit": r[shn]})
     ctx.leg("oracle:Syntax/CoreGrammar.v accepts (POSIX grammar + shell switches) vs bash -n / dash -n", len(items), mism,
-            note="token lists of the search (pool slice + fresh), both shells; KF-C12-6 bash lexer quirk excluded for bash")
+            note="token lists of the search (pool slice + fresh), both shells; KF-C12-6 bash lexer quirk excluded for bash, KF-C12-8 dash case-pattern quirk excluded for dash")
